@@ -1,7 +1,63 @@
-(* C01 — placeholder until CodecProofs is in place: CBOR layer round trip (proved) *)
-From Coq Require Import NArith List.
-From PyC Require Import Base Cbor CborProofs.
+(* C01 — decoding an encoded ledger object returns an equal object, and re-encodes to the same bytes.
+   Statements only; proofs in PyC.CborProofs / PyC.CodecProofs. *)
+From Coq Require Import NArith ZArith String List Bool.
+From PyC Require Import Base Cbor CborProofs Value Codec CodecProofs CodecSites CodecKnown.
+From PyCGen Require Import SchemaGen.
+Import ListNotations.
+Open Scope string_scope.
+Open Scope list_scope.
 
+(* wire layer: decoding the bytes of any well-formed data item returns the item (any nesting, any size) *)
 Theorem C01_cbor_layer : forall x, wf x -> forall f rest, (sz x <= f)%nat -> dec f (enc x ++ rest) = Some (x, rest).
 Proof. exact dec_enc. Qed.
 Print Assumptions C01_cbor_layer.
+
+Theorem C01_cbor_injective : forall x y, wf x -> wf y -> enc x = enc y -> x = y.
+Proof. exact enc_inj. Qed.
+Print Assumptions C01_cbor_injective.
+
+(* object layer: for EVERY class table S, every type t, every value v that is well typed at some fuel k
+   (any nesting depth, any list length, any subset of optional fields, any union alternative whose
+   earlier alternatives reject it), restoring the primitive of v with type t returns exactly v — so no
+   field is dropped, defaulted, re-typed or re-ordered — and re-encoding gives the same primitive. *)
+Theorem C01_roundtrip : forall S k t v n p,
+  ht S k t v -> to_prim S n v = Ok p -> forall m, (k <= m)%nat -> from_prim S m t p = Ok v.
+Proof. exact roundtrip. Qed.
+Print Assumptions C01_roundtrip.
+
+Theorem C01_reencode : forall S k t v n p m,
+  ht S k t v -> to_prim S n v = Ok p -> (k <= m)%nat ->
+  exists v', from_prim S m t p = Ok v' /\ v' = v /\ to_prim S n v' = Ok p.
+Proof. exact roundtrip_reencode. Qed.
+Print Assumptions C01_reencode.
+
+(* union discrimination: coded classes with different type codes reject each other's encodings *)
+Theorem C01_coded_rejects : forall S cu ku fu cw kw fw,
+  lookup S cu = Some (KCoded ku fu) -> lookup S cw = Some (KCoded kw fw) -> ku <> kw -> in64 kw ->
+  forall vs, rejects S (TCls cu) (VObj cw vs).
+Proof. exact coded_rejects. Qed.
+Print Assumptions C01_coded_rejects.
+
+(* PER RUN: the decidable list of places where TODAY's regenerated class tables fall outside the premises
+   (unrestorable annotations, optional array fields that are not trailing, duplicate map keys, union
+   alternatives that shadow a later one) is exactly the recorded list *)
+Theorem C01_sites_known : unsound_sites SchemaGen.schema = known_sites.
+Proof. vm_compute. reflexivity. Qed.
+Print Assumptions C01_sites_known.
+
+(* PER RUN: the hand-modelled framework functions and custom codecs are textually (normalised AST) the
+   ones the model was validated against *)
+Theorem C01_fingerprints_known : SchemaGen.fingerprints = known_fingerprints.
+Proof. vm_compute. reflexivity. Qed.
+Print Assumptions C01_fingerprints_known.
+
+(* the certificate union of today's tables lists every coded certificate class, with pairwise distinct codes *)
+Definition cert_codes (S : Codec.schema) (names : list string) : list Z :=
+  flat_map (fun c => match lookup S c with Some (KCoded k _) => [k] | Some (KOpaque _ (Some k)) => [k] | _ => [] end) names.
+Theorem C01_certificate_union_today :
+  match lookup_union "Certificate" SchemaGen.union_tables with
+  | Some names => cert_codes SchemaGen.schema names = [0; 1; 2; 3; 4; 7; 8; 9; 10; 11; 12; 13; 14; 15; 16; 17; 18]%Z
+  | None => False
+  end.
+Proof. vm_compute. reflexivity. Qed.
+Print Assumptions C01_certificate_union_today.
